@@ -6,7 +6,7 @@ from .. import progs, layout
 
 ID = "C17"
 LEAN_MODULES = ["PycModel.Properties.C17", "PycModel.Properties.C09"]
-NAMESPACES = ["PycModel.C17", "PycModel.ParenExpr", "PycModel.FullExpr"]
+NAMESPACES = ["PycModel.C17", "PycModel.ParenExpr", "PycModel.FullExpr", "PycModel.TypeName"]
 REQUIRED_THEOREMS = ["PycModel.C17.layout_independence", "PycModel.C17.layout_independence_text", "PycModel.C17.erase_mapCoords", "PycModel.C17.redundant_parentheses_change_only_coordinates", "PycModel.ParenExpr.paren_transparent", "PycModel.C17.erase_val_indep", "PycModel.C17.redundant_parentheses_change_only_coordinates_full"]
 LEVEL = "proof"
 TRUSTED = ["the factorisation parse = finish . parseCore . strip of the Lean parser model is faithful to c_parser.py (tied by the whole-pipeline correspondence incl. coordinates)",
